@@ -143,6 +143,48 @@ claim("C19", "other",
       "Trusted: CPython ast; ceil/round semantics for the recognised forms.",
       "DESIGN.md 4/C19")
 
+claim("C01", "other",
+      "def-use provenance of token lists, half-open interval comparison rule, provenance of the Measurement's arguments (AST)",
+      "Partial: three structural necessary conditions of the span and length clauses - every consumer of scope indices works on the same "
+      "comment-free list; nested functions are excluded with the half-open comparisons for exclusive ends; the span is built from the "
+      "header's first token and the last body token (block.end - 1) plus its text length, the name from the header, the length from "
+      "count_lines. That exactly the functions of a canonical grammar are discovered is algorithmic and NOT decided.",
+      "Trusted: TokenRange ends are exclusive (established from their constructors); CPython ast.",
+      "DESIGN.md 4/C01")
+
+claim("C04", "other",
+      "def-use provenance to filter_tokens(raw) + abstract interpretation of filter_tokens / Token.is_whitespace / Token.is_comment over kind x text classes (AST)",
+      "Partial: codelimit's own three places where a comment or blank line could count - all consumers work on filter_tokens(raw) with default "
+      "flags; the filter's keep/drop table over 15 token-kind classes x 4 text classes is computed from the source and compared with the "
+      "specification; count_lines is the number of distinct token start lines. What pygments emits after an insertion is NOT decided.",
+      "Trusted: pygments token hierarchy facts (Whitespace under Text, Comment.* under Comment, empty Text tokens exist); str.isspace/strip semantics.",
+      "DESIGN.md 4/C04")
+
+claim("C05", "other",
+      "def-use pairing of loc with measurements, order typestate (ASC/DESC) through sorting/reversal/filtering/folding, provenance of name token and span (AST)",
+      "Partial: file total = sum of the lengths stored with it at the three construction sites; source order by an order typestate from "
+      "sort_headers (tuple key) through the reversed construction and re-reversal, order-preserving filters, single placement in fold_scopes and "
+      "pre-order unfolding; name token from the header's own match; span construction (shared with C01). Numeric bounds are NOT decided.",
+      "Trusted: sorted/list.reverse semantics; CPython ast.",
+      "DESIGN.md 4/C05")
+
+claim("C16", "other",
+      "folding of lex on filter_comments, abstract filter table, linear normal form of the position formula, one-line-convention and newline-boundary rules (AST)",
+      "Partial: what lex keeps (both return paths + the filter's abstract table), lexer order preserved, column = offset - line start + 1 with "
+      "the special case agreeing with the general case, a single line-break convention ('\\n' only, no splitlines) across the position code, and "
+      "the newline-boundary choice for the recognised table-search forms (strict > / bisect_left). General correctness of the offset arithmetic "
+      "under arbitrary rewrites is NOT decided (needs an integer loop invariant).",
+      "Trusted: pygments yields increasing non-overlapping offsets and only '\\n' ends a line; CPython ast.",
+      "DESIGN.md 4/C16")
+
+claim("C17", "other",
+      "path enumeration with symbolic substitution of the marker predicate, provenance of the filter condition and of the filter's position (AST)",
+      "Partial: on every path of the predicate the tested text is token.value -> case-folded -> leader removed by a slice of its length -> stripped "
+      "-> startswith('nocl'); a scope is dropped iff its name token's line is a marker line; markers come from the raw tokens; the filter sits "
+      "between pairing and nesting. That neighbours keep name, span and length inherits C01's undecided main clause.",
+      "Trusted: str.lower/strip/startswith semantics; CPython ast.",
+      "DESIGN.md 4/C17")
+
 NOT_IMPLEMENTED_YET = "check under construction in this session (see DESIGN.md section 4 for the planned rules)"
 
 
